@@ -10,6 +10,7 @@ import Adc.Scaling
 import Adc.Latex
 import Adc.DeltaEval
 import Adc.Restricted
+import Adc.Linearise
 /- Line-protocol driver: one JSON request per line on stdin, one JSON answer per line on stdout. -/
 open Lean Adc Adc.Wire
 
@@ -218,6 +219,9 @@ def handle (j : Json) : P Json := do
     match forgetSpin e with
     | none => pure (Json.mkObj [("ok", false)])
     | some r => pure (Json.mkObj [("ok", true), ("e", jExpr r)])
+  | "linearise" =>   -- C14: first-order change under a variation of the tensor `name` (every occurrence replaced once)
+    let e ← pExpr (← fld j "e")
+    pure (Json.mkObj [("e", jExpr (linearise (← (← fld j "name").getStr?) (← (← fld j "dname").getStr?) e))])
   | _ => throw s!"unknown op {op}"
 
 partial def loop (h : IO.FS.Stream) (out : IO.FS.Stream) : IO Unit := do
